@@ -13,7 +13,8 @@ EXTENDS Integers, Sequences, FiniteSets, TLC, Json
 
 Positions == {"TYPE", "TYPE-regex", "Request", "Request-Body", "Request-regex", "RESP", "RESP-Body", "RESP-regex",
               "Headers-req", "Headers-resp", "Query", "Path", "Params", "Result", "ENUM",
-              "RESP-first-of-two", "RESP-middle-of-three", "Request-headers-only"}
+              "RESP-first-of-two", "RESP-middle-of-three", "Request-headers-only",
+              "Path-full", "Query-full", "Headers-req-full", "Request-full", "Headers-resp-full", "RESP-full"}     \* among valid companions of every other kind
 Defects == {"none", "syntax", "example-vs-type", "example-vs-range", "undefined-type", "undefined-enum", "undefined-rule",
             "invalid-regex", "unsatisfiable-regex", "regex-matching-empty", "not-an-object", "duplicate-key", "bad-allOf", "or-mismatch", "or-on-object", "only-annotation", "no-body"}
 
@@ -41,10 +42,10 @@ Applies(p, d) == IF p \in NoBodyPos THEN d = "no-body"            \* a response 
                  ELSE IF d = "no-body" THEN FALSE
                  ELSE IF p \in {"TYPE-regex", "Request-regex", "RESP-regex"} THEN d \in {"none", "invalid-regex", "unsatisfiable-regex", "regex-matching-empty"}
                  ELSE IF p = "ENUM" THEN d \in {"none", "syntax"}
-                 ELSE d \notin {"invalid-regex", "unsatisfiable-regex", "regex-matching-empty"} /\ (d = "only-annotation" => p \notin {"Path", "Headers-req", "Headers-resp", "Query"})
+                 ELSE d \notin {"invalid-regex", "unsatisfiable-regex", "regex-matching-empty"} /\ (d = "only-annotation" => p \notin {"Path", "Headers-req", "Headers-resp", "Query", "Path-full", "Headers-req-full", "Headers-resp-full", "Query-full"})
 
 \* what the build has to reject so that marshalling cannot fail later
-MustReject(p, d) == d \notin {"none", "regex-matching-empty"} /\ ~(d = "not-an-object" /\ p \notin {"Headers-req", "Headers-resp", "Path"})
+MustReject(p, d) == d \notin {"none", "regex-matching-empty"} /\ ~(d = "not-an-object" /\ p \notin {"Headers-req", "Headers-resp", "Path", "Headers-req-full", "Headers-resp-full", "Path-full"})
 
 VARIABLES pos, def
 Init == pos \in Positions /\ def \in Defects /\ Applies(pos, def)
